@@ -36,6 +36,7 @@ const (
 	DevWarnings         // send N warning alerts before the unit
 	DevEmptyRecord      // send an empty handshake record before the unit
 	DevLenField         // add Val to the N-th length/count field inside the message body (nothing else adjusted)
+	DevFinishedEarly    // (on the last unit before ChangeCipherSpec, client only) the first 1+N%16 bytes of the Finished message travel in the clear in the same record as this message; the rest follows after ChangeCipherSpec
 	DevPlainFinished    // (on the ChangeCipherSpec unit) no ChangeCipherSpec and no key switch: Finished follows in plaintext; with Val=1 a handshake message of type Typ is sent in its place
 )
 
@@ -90,6 +91,10 @@ type Conn struct {
 	SentUnits     []string
 	closed        bool
 	TLS12         bool // message formats of TLS 1.2 (set by the handshake functions)
+	// EarlyFin, set by the client handshake once the master secret is known, returns
+	// the Finished message for the transcript as it stands (DevFinishedEarly)
+	EarlyFin func() []byte
+	earlyK   int
 }
 
 // NewConn wraps a transport.
@@ -310,7 +315,29 @@ func (c *Conn) sendUnit(recType uint8, name string, plain []byte) error {
 func (c *Conn) WriteHandshake(typ uint8, body []byte) error {
 	c.Transcript = append(c.Transcript, Handshake(typ, body)...)
 	wire := Handshake(typ, body)
+	if typ == HsFinished && c.earlyK > 0 {
+		// the head of this message already went out in the clear (DevFinishedEarly)
+		k := c.earlyK
+		c.earlyK = 0
+		c.sent++
+		c.SentUnits = append(c.SentUnits, "Finished(tail)")
+		if k >= len(wire) {
+			return nil
+		}
+		return c.rawWrite(c.recordBytes(RecHandshake, c.RecVers, wire[k:], nil))
+	}
 	if d := c.devFor(c.sent); d != nil {
+		if d.Kind == DevFinishedEarly && c.EarlyFin != nil && typ != HsFinished {
+			fin := c.EarlyFin()
+			k := 1 + d.N%len(fin)
+			c.earlyK = k
+			d.Fired, d.Changed = true, true
+			c.sent++
+			c.SentUnits = append(c.SentUnits, HsName(typ)+"+Finished(head, clear)")
+			wire = append(append(append([]byte(nil), c.pending...), wire...), fin[:k]...)
+			c.pending = nil
+			return c.rawWrite(c.recordBytes(RecHandshake, c.RecVers, wire, nil))
+		}
 		switch d.Kind {
 		case DevReplaceType:
 			wire = Handshake(uint8(d.Val), body)
@@ -829,10 +856,13 @@ func ClientHandshake(c *Conn, cfg *ClientCfg) (*Result, error) {
 	if !ecdhe {
 		res.CKXBody = Vec16Body(enc)
 	}
+	res.Master = MasterSecret(sh.Suite, pre, ch.Random, sh.Random)
+	c.EarlyFin = func() []byte {
+		return Handshake(HsFinished, FinishedData(sh.Suite, res.Master, true, c.Transcript))
+	}
 	if err := c.WriteHandshake(HsClientKeyExchange, res.CKXBody); err != nil {
 		return res, err
 	}
-	res.Master = MasterSecret(sh.Suite, pre, ch.Random, sh.Random)
 	if sentCert && !cfg.OmitCertVerify {
 		key := cfg.Cert.Key
 		if cfg.CertVerifyKey != nil {
